@@ -121,6 +121,15 @@ Theorem schema_fixed_point_origin : forall o fs ck wire cur rdlen vs,
 Proof. intros o fs ck wire cur rdlen vs Ho. apply schema_fixed_point_origin_thm. exact Ho. Qed.
 Print Assumptions schema_fixed_point_origin.
 
+Theorem table_fixed_point_origin : forall tbl o e w r ck wire cur rdlen vs,
+  forallb entry_ok tbl = true -> In e tbl -> entry_origin_ok e = true ->
+  e_codec e = CSchema w r ck -> is_absolute o = true ->
+  decode_rdata (Some o) (map fst r) ck wire cur rdlen = Ok vs ->
+  exists w', encode_rdata (Some o) (map fst w) ck vs = Ok w' /\
+             decode_rdata (Some o) (map fst r) ck w' 0 (length w') = Ok vs.
+Proof. exact table_fixed_point_origin_thm. Qed.
+Print Assumptions table_fixed_point_origin.
+
 (* known finding C02-tsig-relative-algorithm-origin: TSIG's reader calls get_name() without the
    origin its writer appends, so the statement above is false for TSIG (entry_origin_ok fails) *)
 Theorem tsig_origin_roundtrip_refuted :
